@@ -299,4 +299,340 @@ theorem topK_isTopK_on {o : Ops α} (h : OrdLawsOn o) (k : Int) (ts : List (Tok 
   rw [topK_totalize h.zero k ts hg] at this
   exact this.of_totalize hg
 
+/-! ### the arithmetic part of the pipeline: same run for `o` and `totalize o` when no NaN is compared -/
+
+/-- what the carrier must provide beyond `OrdLawsOn` for the weighted path -/
+structure ArithLawsOn (o : Ops α) : Prop where
+  posInf : o.isNaN o.posInf = false
+  /-- adding a zero does not make a non-NaN sum larger -/
+  addZero : ∀ s z, o.beq z o.zero = true → o.isNaN s = false → o.lt s (o.add s z) = false
+  /-- NaN is absorbing for `+` on the left -/
+  addNaN : ∀ s z, o.isNaN s = true → o.isNaN (o.add s z) = true
+
+theorem fmax_totalize (o : Ops α) (a b : α) : fmax (totalize o) a b = fmax o a b := by
+  unfold fmax
+  cases ha : o.isNaN a with
+  | true => simp [totalize, ha]
+  | false =>
+    cases hb : o.isNaN b with
+    | true => simp [totalize, ha, hb]
+    | false =>
+      have : (totalize o).lt a b = o.lt a b := totalize_lt o ha hb
+      have e1 : (totalize o).isNaN a = false := ha
+      have e2 : (totalize o).isNaN b = false := hb
+      simp only [e1, e2, ha, hb, this, Bool.false_eq_true, if_false]
+
+theorem scaleVals_totalize (o : Ops α) (t : α) (vs : List α) :
+    scaleVals (totalize o) t vs = scaleVals o t vs := by
+  unfold scaleVals
+  simp only
+  have : fmax (totalize o) t (totalize o).tempFloor = fmax o t o.tempFloor := fmax_totalize o t o.tempFloor
+  rw [this]
+  rfl
+
+theorem temperature_totalize (o : Ops α) (t : α) (L : List (Tok α)) :
+    temperature (totalize o) t L = temperature o t L := by
+  unfold temperature
+  rw [scaleVals_totalize]
+
+theorem softmaxVals_totalize {o : Ops α} (hneg : o.isNaN o.negInf = false) (vs : List α)
+    (hv : ∀ v ∈ vs, o.isNaN v = false) : softmaxVals (totalize o) vs = softmaxVals o vs := by
+  unfold softmaxVals
+  have hm : ∀ (l : List α) (m : α), o.isNaN m = false → (∀ v ∈ l, o.isNaN v = false) →
+      l.foldl (fun m v => if (totalize o).lt m v then v else m) m =
+      l.foldl (fun m v => if o.lt m v then v else m) m := by
+    intro l
+    induction l with
+    | nil => intro m _ _; rfl
+    | cons x xs ih =>
+      intro m hm hl
+      have hx := hl x List.mem_cons_self
+      simp only [List.foldl_cons, totalize_lt o hm hx]
+      apply ih
+      · split <;> assumption
+      · intro y hy; exact hl y (List.mem_cons_of_mem _ hy)
+  have := hm vs o.negInf hneg hv
+  simp only
+  have e : (totalize o).negInf = o.negInf := rfl
+  rw [e, this]
+  rfl
+
+theorem softmax_totalize {o : Ops α} (hneg : o.isNaN o.negInf = false) (L : List (Tok α))
+    (hv : ∀ t ∈ L, o.isNaN t.val = false) : softmax (totalize o) L = softmax o L := by
+  unfold softmax
+  rw [softmaxVals_totalize hneg]
+  intro v hv'
+  obtain ⟨t, ht, rfl⟩ := List.mem_map.1 hv'
+  exact hv t ht
+
+/-- every running sum of the `topP` scan is not NaN -/
+def sumsGood (o : Ops α) : α → List (Tok α) → Bool
+  | _, [] => true
+  | s, t :: rest => !o.isNaN (o.add s t.val) && sumsGood o (o.add s t.val) rest
+
+theorem topPCut_totalize (o : Ops α) (p : α) (hp : o.isNaN p = false) : ∀ (L : List (Tok α)) (s : α),
+    sumsGood o s L = true → topPCut (totalize o) p s L = topPCut o p s L := by
+  intro L
+  induction L with
+  | nil => intro s _; rfl
+  | cons t rest ih =>
+    intro s hs
+    simp only [sumsGood, Bool.and_eq_true, Bool.not_eq_true'] at hs
+    simp only [topPCut]
+    have e : (totalize o).add s t.val = o.add s t.val := rfl
+    rw [e, totalize_lt o hp hs.1, ih _ hs.2]
+
+theorem topP_totalize (o : Ops α) (p : α) (hp : o.isNaN p = false) (L : List (Tok α))
+    (hs : sumsGood o o.zero L = true) : topP (totalize o) p L = topP o p L := by
+  unfold topP
+  have e1 : (totalize o).beq p (totalize o).one = o.beq p o.one := rfl
+  have e2 : (totalize o).zero = o.zero := rfl
+  rw [e1, e2, topPCut_totalize o p hp L o.zero hs]
+
+theorem minP_totalize (o : Ops α) (p : α) (L : List (Tok α))
+    (hv : ∀ t ∈ L, o.isNaN t.val = false)
+    (hth : ∀ t0 rest, L = t0 :: rest → o.isNaN (o.mul t0.val p) = false) :
+    minP (totalize o) p L = minP o p L := by
+  cases L with
+  | nil => rfl
+  | cons t0 rest =>
+    simp only [minP]
+    have hth' := hth t0 rest rfl
+    have e : (totalize o).mul t0.val p = o.mul t0.val p := rfl
+    rw [e]
+    congr 1
+    have : ∀ (l : List (Tok α)), (∀ t ∈ l, o.isNaN t.val = false) →
+        l.takeWhile (fun t => !(totalize o).lt t.val (o.mul t0.val p)) =
+        l.takeWhile (fun t => !o.lt t.val (o.mul t0.val p)) := by
+      intro l
+      induction l with
+      | nil => intro _; rfl
+      | cons x xs ih =>
+        intro hl
+        simp only [List.takeWhile_cons, totalize_lt o (hl x List.mem_cons_self) hth']
+        rw [ih (fun t ht => hl t (List.mem_cons_of_mem _ ht))]
+    exact this _ hv
+
+theorem cumsum_totalize (o : Ops α) (s : α) (L : List (Tok α)) : cumsum (totalize o) s L = cumsum o s L := by
+  induction L generalizing s with
+  | nil => rfl
+  | cons t rest ih => simp only [cumsum]; exact congrArg _ (ih _)
+
+theorem pick_totalize (o : Ops α) (r : α) (L : List (Tok α))
+    (hc : ∀ t ∈ cumsum o o.zero L, o.isNaN t.val = false)
+    (hr : ∀ last, (cumsum o o.zero L).getLast? = some last → o.isNaN (o.mul r last.val) = false) :
+    pick (totalize o) r L = pick o r L := by
+  unfold pick
+  have e0 : (totalize o).zero = o.zero := rfl
+  simp only [e0, cumsum_totalize]
+  cases hl : (cumsum o o.zero L).getLast? with
+  | none => rfl
+  | some last =>
+    simp only
+    have hr' := hr last hl
+    have e : (totalize o).mul r last.val = o.mul r last.val := rfl
+    have hb : belowAt (totalize o) (cumsum o o.zero L) (o.mul r last.val) =
+        belowAt o (cumsum o o.zero L) (o.mul r last.val) := by
+      funext h
+      unfold belowAt
+      cases hg : (cumsum o o.zero L)[h]? with
+      | none => rfl
+      | some t => exact totalize_lt o (hc t (List.mem_of_getElem? hg)) hr'
+    rw [e, hb]
+    rfl
+
+
+/-- **the run guard**: no NaN is ever compared in the run on the (shifted) list `L1` — none among the
+    scaled values, the probabilities, the running sums of the `topP` scan, the `minP` threshold, the
+    cumulative sums and the target `r·total`, and `top_p` itself is not NaN.  Decidable; evaluated on
+    every sampled run by the oracle and, independently, by the Go driver (flag `nan` of `c=`). -/
+def runGood (o : Ops α) (P : Params α) (r : α) (L1 : List (Tok α)) : Bool :=
+  (temperature o P.temp L1).all (fun t => !o.isNaN t.val) &&
+  (probsOf o P L1).all (fun t => !o.isNaN t.val) &&
+  !o.isNaN P.topP && sumsGood o o.zero (probsOf o P L1) &&
+  (match topP o P.topP (probsOf o P L1) with
+   | [] => true
+   | t0 :: _ => !o.isNaN (o.mul t0.val P.minP)) &&
+  (match minP o P.minP (topP o P.topP (probsOf o P L1)) with
+   | .ok f => (cumsum o o.zero f).all (fun t => !o.isNaN t.val) &&
+       (match (cumsum o o.zero f).getLast? with
+        | some last => !o.isNaN (o.mul r last.val)
+        | none => true)
+   | .error _ => true)
+
+theorem runGood_stages {o : Ops α} (hneg : o.isNaN o.negInf = false) (P : Params α) (r : α)
+    (L1 : List (Tok α)) (hg : runGood o P r L1 = true) :
+    (∀ v ∈ scaledOf o P L1, o.isNaN v = false) ∧
+    (∀ t ∈ probsOf o P L1, o.isNaN t.val = false) ∧
+    probsOf (totalize o) P L1 = probsOf o P L1 ∧
+    topP (totalize o) P.topP (probsOf o P L1) = topP o P.topP (probsOf o P L1) ∧
+    minP (totalize o) P.minP (topP o P.topP (probsOf o P L1)) = minP o P.minP (topP o P.topP (probsOf o P L1)) ∧
+    (∀ f, minP o P.minP (topP o P.topP (probsOf o P L1)) = .ok f → pick (totalize o) r f = pick o r f) := by
+  unfold runGood at hg
+  simp only [Bool.and_eq_true, List.all_eq_true, Bool.not_eq_true'] at hg
+  obtain ⟨⟨⟨⟨⟨hS, hP⟩, hp⟩, hsum⟩, hth⟩, hpk⟩ := hg
+  have hS' : ∀ v ∈ scaledOf o P L1, o.isNaN v = false := by
+    intro v hv
+    rw [← temperature_vals] at hv
+    obtain ⟨t, ht, rfl⟩ := List.mem_map.1 hv
+    exact hS t ht
+  have e1 : probsOf (totalize o) P L1 = probsOf o P L1 := by
+    unfold probsOf
+    rw [temperature_totalize, softmax_totalize hneg _ hS]
+  have hfp : ∀ t ∈ topP o P.topP (probsOf o P L1), o.isNaN t.val = false := fun t ht =>
+    hP t ((topP_prefix o P.topP _).subset ht)
+  refine ⟨hS', hP, e1, topP_totalize o P.topP hp _ hsum, ?_, ?_⟩
+  · apply minP_totalize o P.minP _ hfp
+    intro t0 rest he
+    rw [he] at hth
+    simpa using hth
+  · intro f hf
+    rw [hf] at hpk
+    simp only [Bool.and_eq_true, List.all_eq_true, Bool.not_eq_true'] at hpk
+    apply pick_totalize o r f hpk.1
+    intro last hl
+    have := hpk.2
+    rw [hl] at this
+    simpa using this
+
+theorem afterTopK_totalize {o : Ops α} (hneg : o.isNaN o.negInf = false) (P : Params α) (r : α)
+    (L1 : List (Tok α)) (hg : runGood o P r L1 = true) :
+    afterTopK (totalize o) false P r L1 = afterTopK o false P r L1 := by
+  obtain ⟨_, _, e1, e2, e3, e4⟩ := runGood_stages hneg P r L1 hg
+  have u : ∀ (o' : Ops α), afterTopK o' false P r L1 =
+      (match minP o' P.minP (topP o' P.topP (probsOf o' P L1)) with
+       | .ok f => pick o' r f
+       | .error e => .error e) := by
+    intro o'
+    unfold afterTopK probsOf
+    simp only [Bool.false_eq_true, if_false, bind, Except.bind, pure, Except.pure]
+    cases minP o' P.minP (topP o' P.topP (softmax o' (temperature o' P.temp L1))) <;> rfl
+  rw [u, u, e1, e2, e3]
+  cases hm : minP o P.minP (topP o P.topP (probsOf o P L1)) with
+  | error e => rfl
+  | ok f => exact e4 f hm
+
+theorem all_congr_mem {β : Type} (l : List β) (f g : β → Bool) (h : ∀ x ∈ l, f x = g x) :
+    l.all f = l.all g := by
+  induction l with
+  | nil => rfl
+  | cons a rest ih =>
+    simp only [List.all_cons, h a List.mem_cons_self, ih (fun x hx => h x (List.mem_cons_of_mem _ hx))]
+
+theorem isDesc_totalize (o : Ops α) : ∀ (vs : List α), (∀ v ∈ vs, o.isNaN v = false) →
+    isDesc (totalize o) vs = isDesc o vs := by
+  intro vs
+  induction vs with
+  | nil => intro _; rfl
+  | cons a rest ih =>
+    intro hv
+    cases rest with
+    | nil => rfl
+    | cons b rest' =>
+      simp only [isDesc]
+      rw [totalize_lt o (hv a List.mem_cons_self) (hv b (List.mem_cons_of_mem _ List.mem_cons_self)),
+        ih (fun v hv' => hv v (List.mem_cons_of_mem _ hv'))]
+
+theorem guardOK_totalize {o : Ops α} (hneg : o.isNaN o.negInf = false) (hpos : o.isNaN o.posInf = false)
+    (vs : List α) (hv : ∀ v ∈ vs, o.isNaN v = false) : guardOK (totalize o) vs = guardOK o vs := by
+  unfold guardOK
+  have e1 : vs.all (fun v => !(totalize o).isNaN v && (totalize o).lt v (totalize o).posInf) =
+      vs.all (fun v => !o.isNaN v && o.lt v o.posInf) := by
+    apply all_congr_mem
+    intro v hv'
+    have : (totalize o).lt v (totalize o).posInf = o.lt v o.posInf := totalize_lt o (hv v hv') hpos
+    rw [this]; rfl
+  rw [e1]
+  cases vs with
+  | nil => rfl
+  | cons v rest =>
+    have : (totalize o).lt (totalize o).negInf v = o.lt o.negInf v := totalize_lt o hneg (hv v List.mem_cons_self)
+    simp only [this]
+
+theorem scaleOK_totalize (o : Ops α) (vs ss : List α) (hs : ∀ v ∈ ss, o.isNaN v = false) :
+    scaleOK (totalize o) vs ss = scaleOK o vs ss := by
+  unfold scaleOK
+  rw [isDesc_totalize o ss hs]
+  rfl
+
+theorem softmaxOK_totalize {o : Ops α} (hz : o.isNaN o.zero = false) (vs ps : List α)
+    (hp : ∀ p ∈ ps, o.isNaN p = false) : softmaxOK (totalize o) vs ps = softmaxOK o vs ps := by
+  unfold softmaxOK
+  rw [isDesc_totalize o ps hp]
+  have e1 : ps.all (fun p => !(totalize o).isNaN p && !(totalize o).lt p (totalize o).zero) =
+      ps.all (fun p => !o.isNaN p && !o.lt p o.zero) := by
+    apply all_congr_mem
+    intro p hp'
+    have : (totalize o).lt p (totalize o).zero = o.lt p o.zero := totalize_lt o (hp p hp') hz
+    rw [this]; rfl
+  rw [e1]
+  cases ps with
+  | nil => rfl
+  | cons p rest =>
+    have : (totalize o).lt (totalize o).zero p = o.lt o.zero p := totalize_lt o hz (hp p List.mem_cons_self)
+    simp only [this]
+    rfl
+
+theorem totalize_addZero {o : Ops α} (ha : ArithLawsOn o) : AddZeroLaw (totalize o) := by
+  intro s z hz
+  show (!o.isNaN (o.add s z) && (o.isNaN s || o.lt s (o.add s z))) = false
+  cases hs : o.isNaN s with
+  | true => simp [ha.addNaN s z hs]
+  | false =>
+    cases hn : o.isNaN (o.add s z) with
+    | true => simp
+    | false => simp [ha.addZero s z hz hs]
+
+/-- **everything after topK, repaired variant, for IEEE-like carriers**: relativised laws; the run
+    guard `runGood` (no NaN is ever compared) joins the contracts -/
+theorem afterTopK_spec_fix_on {o : Ops α} (h : OrdLawsOn o) (ha : ArithLawsOn o) (hb : BeqLawOn o)
+    (P : Params α) (r : α) (L : List (Tok α)) (t : Tok α)
+    (hres : afterTopK o true P r L = .ok t) :
+    ∃ L1, shiftMax o L = .ok L1 ∧
+    (runGood o P r L1 = true → (∀ v ∈ L1.map (·.val), o.isNaN v = false) →
+     guardOK o (scaledOf o P L1) = true →
+     scaleOK o (L.map (·.val)) (L1.map (·.val)) = true →
+     scaleOK o (L1.map (·.val)) (scaledOf o P L1) = true →
+     softmaxOK o (scaledOf o P L1) (softmaxVals o (scaledOf o P L1)) = true →
+     ∃ (idx : Nat) (y : Tok α) (f : List (Tok α)) (x : Tok α),
+      L[idx]? = some y ∧ y.id = t.id ∧ o.beq y.val o.negInf = false ∧
+      minP o P.minP (topP o P.topP (probsOf o P L1)) = .ok f ∧ f <+: probsOf o P L1 ∧
+      f[idx]? = some x ∧ x.id = t.id) := by
+  obtain ⟨L1, hs, h1⟩ := afterTopK_fix o P r L t hres
+  refine ⟨L1, hs, ?_⟩
+  intro hrg hL1 hg hsh hsc hsm
+  obtain ⟨hS, hP, e1, e2, e3, _⟩ := runGood_stages h.negInf P r L1 hrg
+  have hsc_eq : scaledOf (totalize o) P L1 = scaledOf o P L1 := scaleVals_totalize o _ _
+  have hsm_eq : softmaxVals (totalize o) (scaledOf o P L1) = softmaxVals o (scaledOf o P L1) :=
+    softmaxVals_totalize h.negInf _ hS
+  have hPv : ∀ p ∈ softmaxVals o (scaledOf o P L1), o.isNaN p = false := by
+    intro p hp
+    have hm : (probsOf o P L1).map (·.val) = softmaxVals o (scaledOf o P L1) := by
+      unfold probsOf softmax
+      rw [temperature_vals]
+      exact setVals_map_val _ _ (by simp [softmaxVals_length, scaleVals_length, scaledOf, temperature,
+        setVals_length])
+    rw [← hm] at hp
+    obtain ⟨t', ht', rfl⟩ := List.mem_map.1 hp
+    exact hP t' ht'
+  have h1' : afterTopK (totalize o) false P r L1 = .ok t := by
+    rw [afterTopK_totalize h.negInf P r L1 hrg]; exact h1
+  obtain ⟨idx, y1, f, x, hy1, hy1id, hy1v, hf, hpre, hx, hxid⟩ :=
+    afterTopK_spec (totalize_laws h) (totalize_addZero ha) (totalize_beqLaw hb) P r L1 t h1'
+      (by rw [hsc_eq, guardOK_totalize h.negInf ha.posInf _ hS]; exact hg)
+      (by rw [hsc_eq, scaleOK_totalize o _ _ hS]; exact hsc)
+      (by rw [hsc_eq, hsm_eq, softmaxOK_totalize h.zero _ _ hPv]; exact hsm)
+  rw [e1, e2, e3] at hf
+  rw [e1] at hpre
+  obtain ⟨y, hy, hyid⟩ := shiftMax_get o L L1 hs idx y1 hy1
+  refine ⟨idx, y, f, x, hy, by rw [hyid, hy1id], ?_, hf, hpre, hx, hxid⟩
+  unfold scaleOK at hsh
+  simp only [Bool.and_eq_true] at hsh
+  have ha' : (L.map (·.val))[idx]? = some y.val := by simp [hy]
+  have hb' : (L1.map (·.val))[idx]? = some y1.val := by simp [hy1]
+  have := zip_all_get _ _ _ idx y.val y1.val hsh.2 ha' hb'
+  have hy1v' : o.beq y1.val o.negInf = false := hy1v
+  rw [hy1v'] at this
+  simpa using this
+
 end OllamaVerif.Sampler
